@@ -298,6 +298,16 @@ Definition c12_value_line (kv : c12_str * c12_str) : c12_str := c12_render_rline
 Definition c12_report_lines (t : c12_tree) (pfx : c12_str) : list c12_str :=
   map c12_render_rline (c12_report_rlines t pfx).
 
+(* ParameterTree& operator=(ParameterTree other)  (copy and swap): [other] is a COPY of the source, made before the
+   target is touched (so the source may be a subtree of the target or contain it); every member of the target is
+   swapped with the copy's, the copy -- now holding the target's previous content -- is destroyed on return.
+   Result: (the target afterwards, the content that is destroyed).  (dimension audit 2: assignment onto a target that
+   already holds other values, subtrees and key lists) *)
+Definition c12_tree_assign (target other : c12_tree) : c12_tree * c12_tree :=
+  match target, other with
+  | C12Node tv ts, C12Node ov os => (C12Node ov os, C12Node tv ts)
+  end.
+
 (* ---------------------------------------------------------------- 3. readINITree *)
 
 Inductive c12_status := C12Ok | C12RangeError | C12ParserError | C12HelpRequest | C12OutOfFuel.
@@ -455,6 +465,36 @@ Fixpoint c12_read_options (args : list c12_str) (pt : c12_tree) : c12_tree * c12
         if ok then c12_read_options rest' pt' else (pt', C12RangeError)
       end
     | _ => c12_read_options rest pt
+    end
+  end.
+
+(* readOptions with the argument COUNT made explicit (dimension audit 2, "capacity exceeds size"):
+   [n] = argc - i counted entries left, [argv] = argv[i..] up to (excluding) the first NULL entry, so the array may be
+   LONGER than argc.  The loop is  for(i=1; i<argc; i++)  but the missing-value test is  argv[i+1] == NULL,  not
+   i+1 < argc:  an option in the last counted position takes the entry BEHIND the count as its value (then ++i leaves
+   the loop).  An entry argv[i] == NULL with i < argc is outside the calling convention (argv[i][0] dereferences it):
+   the model stops with C12OutOfFuel, which the theorems exclude. *)
+Fixpoint c12_read_options_n (n : nat) (argv : list c12_str) (pt : c12_tree) : c12_tree * c12_status :=
+  match n with
+  | O => (pt, C12Ok)
+  | S n1 =>
+    match argv with
+    | [] => (pt, C12OutOfFuel)
+    | a :: rest =>
+      match a with
+      | "-" :: ((_ :: _) as k) =>
+        match rest with
+        | [] => (pt, C12RangeError)
+        | v :: rest' =>
+          let '(pt', ok) := c12_set pt (c12_path k) v in
+          if ok then match n1 with
+                     | O => (pt', C12Ok)                          (* ++i; then i >= argc *)
+                     | S n2 => c12_read_options_n n2 rest' pt'
+                     end
+          else (pt', C12RangeError)
+        end
+      | _ => c12_read_options_n n1 rest pt
+      end
     end
   end.
 
